@@ -284,21 +284,43 @@ func (db *DB) garbageCollectFile(key uint16, size int64) error {
 		offsetDeltaMap = make(map[telem.TimeRange]uint32)
 	)
 
+	// The copy and the swap run with the reader pool read-locked so that no reader can
+	// be opened on the file meanwhile. These locks must be released before the writer
+	// pool is touched again (restoreUnopened / rejuvenate): everything else in the file
+	// controller takes the writer-pool lock before the reader-pool lock, and taking them
+	// the other way round here deadlocks against a writer rolling over to a new file
+	// while an iterator opens a reader.
+	var (
+		rs           *fileReaders
+		readersHeld  = true
+		fileHeld     bool
+		unlockReader = func() {
+			if fileHeld {
+				rs.RUnlock()
+				fileHeld = false
+			}
+			if readersHeld {
+				db.fc.readers.RUnlock()
+				readersHeld = false
+			}
+		}
+	)
 	restore := func() {
+		unlockReader()
 		if wasUnopened {
 			db.fc.restoreUnopened(key)
 		}
 	}
 
 	db.fc.readers.RLock()
-	defer db.fc.readers.RUnlock()
+	defer unlockReader()
 	rs, ok := db.fc.readers.files[key]
 	// It's ok if there is no reader entry for the file, this means that no reader has
 	// been created. And we can be sure that no reader will be created since we hold the
 	// fc.readers mutex as well, preventing the readers map from being modified.
 	if ok {
 		rs.RLock()
-		defer rs.RUnlock()
+		fileHeld = true
 		// If there's any open file handles on the file, we cannot garbage collect.
 		if len(rs.open) > 0 {
 			restore()
@@ -395,6 +417,7 @@ func (db *DB) garbageCollectFile(key uint16, size int64) error {
 		return err
 	}
 
+	unlockReader()
 	if err = db.fc.rejuvenate(key); err != nil {
 		return err
 	}
